@@ -378,3 +378,14 @@ func (e *Engine) coverChecks(prop string) []*StructObl {
 	}
 	return out
 }
+
+func (e *Engine) factGlobalKeys() map[string]bool {
+	if e.factKeys != nil {
+		return e.factKeys
+	}
+	e.factKeys = map[string]bool{}
+	for g := range e.factGlobals() {
+		e.factKeys[globalKey(g)] = true
+	}
+	return e.factKeys
+}
